@@ -77,6 +77,13 @@ def run(ctx):
         meta.append(('badlen', ln))
         lines.append('RDM %d %s' % (len(lines), (h + bytes(max(0, min(ln, 5000) - 19))).hex()))
         meta.append(('rdm', ln))
+    # 3b. the blocking reader on a source that hands out at most k octets per read() (a socket, a pipe, two chained slices):
+    #     the messages of the stream, each once, in order, whatever k is
+    for _ in range(40 if quick else 2000):
+        ms = [rng.choice(msgs_pool) for _ in range(1 + rng.below(5))]
+        for k in rng.choice([[1], [2, 17], [3, 18], [19, 20], [5, 1000], [7]]):
+            lines.append('RDS %d %d %s' % (len(lines), k, b''.join(ms).hex()))
+            meta.append(('rds', ms))
     # 4. bad markers, illegal types, arbitrary octets
     for _ in range(100 if quick else 5000):
         b = bytearray(rng.choice(msgs_pool))
@@ -232,6 +239,11 @@ def run(ctx):
                 ctx.violation('a length field below 19 must end the extraction with an error', case=lines[i][:300], impl=body[:200])
             if ln == 19 and frames[-1] == 'E':
                 ctx.violation('a well-formed KEEPALIVE was rejected', case=lines[i][:300], impl=body[:200])
+        elif m[0] == 'rds':
+            want = ','.join(['ok:' + x.hex() for x in m[1]] + ['none'])
+            if body != want:
+                ctx.violation('read_message on a source that delivers short reads does not return the messages of the stream', case=lines[i][:300],
+                              impl=body[:300], want=want[:300])
         elif m[0] == 'rdm':
             ln = m[1]
             ok = body.startswith('ok:')
